@@ -294,7 +294,7 @@ func (c03) ID() string { return "C03" }
 func (c03) Meta() Meta {
 	return Meta{
 		Level:       "exploration",
-		Rule:        "differential monitor: every query (all entry points; seeded cursors) on a (source, file state) pair is executed (i) R times in a row on one decoder, (ii) again after a seeded sequence of 1-30 other queries, (iii) on a freshly rebuilt decoder/schema/files (new map objects), and the canonical dumps must be identical (order kept for candidates, tokens, symbols, targets incl. nested, origins, lookups; diagnostics as multisets). Go re-randomises map iteration on every range statement, so every repetition samples new iteration orders. distinct non-trivial = distinct (source, state, query kind, cursor) whose result has >= 2 elements on a path whose schema has a map with >= 2 entries.",
+		Rule:        "differential monitor: every query (all entry points; seeded cursors) on a (source, file state) pair is executed (i) R times in a row on one decoder, (ii) again after a seeded sequence of 1-30 other queries, (iii) on a freshly rebuilt decoder/schema/files (new map objects); (i) and (ii) use ONE PathDecoder per path for the whole sequence, so state kept on it is part of the history, and the canonical dumps must be identical (order kept for candidates, tokens, symbols, targets incl. nested, origins, lookups; diagnostics as multisets). Go re-randomises map iteration on every range statement, so every repetition samples new iteration orders. distinct non-trivial = distinct (source, state, query kind, cursor) whose result has >= 2 elements on a path whose schema has a map with >= 2 entries.",
 		Assumptions: []string{"equality is equality of the canonical dump (unexported fields included, pointer identities excluded, funcs as set/nil)", "map iteration orders are sampled, not enumerated"},
 		Floor:       map[string]int{"quick": 200, "thorough": 1000},
 		CaseBudget:  120,
@@ -434,7 +434,7 @@ func (c04) ID() string { return "C04" }
 func (c04) Meta() Meta {
 	return Meta{
 		Level:       "exploration",
-		Rule:        "before/after monitor: a deep snapshot (canonical dump incl. unexported fields, function identities and the len..cap region of every slice) of everything reachable from the path contexts (schema tree with dependent bodies and constraints, parsed files and bytes, functions, collected targets and origins, validators) and the decoder context is hashed before and after a seeded batch of <= 200 queries of all kinds (including error-returning ones: unknown file, unreadable path, out-of-range positions); on a mismatch the batch is replayed on a fresh context with a snapshot after every query to find the offending call. Slices of the schema, targets and origins are given spare capacity first so that an append into caller-owned memory is visible. distinct non-trivial = batches on a file with >= 1 block whose dependent body resolves and in which >= 3 distinct query kinds returned a non-empty result.",
+		Rule:        "before/after monitor: a deep snapshot (canonical dump incl. unexported fields, function identities and the len..cap region of every slice) of everything reachable from the path contexts (schema tree with dependent bodies and constraints, parsed files and bytes, functions, collected targets and origins, validators) and the decoder context is hashed before and after a seeded batch of <= 200 queries of all kinds (including error-returning ones: unknown file, unreadable path, out-of-range positions); on a mismatch the batch is replayed on a fresh context with a snapshot after every query to find the offending call. Slices of the schema, targets and origins are given spare capacity first so that an append into caller-owned memory is visible. Cursors are the seeded uniform ones plus a stratified sample (a few inside each kind of written element: top-level/nested block type, label, attribute name, value start); all queries of a workspace go through one PathDecoder per path. distinct non-trivial = batches on a file with >= 1 block whose dependent body resolves and in which >= 3 distinct query kinds returned a non-empty result.",
 		Assumptions: []string{"sharing of immutable-by-convention values (constraints, cty values) between derived and caller-owned schemas is not flagged - only observable modification is"},
 		Floor:       map[string]int{"quick": 40, "thorough": 200},
 		CaseBudget:  120,
@@ -756,7 +756,7 @@ func (c18) ID() string { return "C18" }
 func (c18) Meta() Meta {
 	return Meta{
 		Level:       "exploration",
-		Rule:        "metamorphic monitor: k in {1,2,5} lines of {blank, '# ...', '// ...', multi-byte comment, comment containing { , = ( \" ${} are inserted before a top-level item or appended after the last one; both files go through the real collectors; every query (all kinds, seeded cursors moved correspondingly) on the translated file must equal the result on the original once every position in the edited file is mapped back (b < I unchanged; b >= I+db -> line-dl, byte-db; a position inside the inserted text is itself a violation). distinct non-trivial = comparisons whose result holds >= 1 position at or after the insertion point.",
+		Rule:        "metamorphic monitor: k in {1,2,5,12,30} lines of {blank, '# ...', '// ...', multi-byte comment, comment containing { , = ( \" ${} are inserted before a top-level item or appended after the last one; both files go through the real collectors; every query (all kinds, seeded cursors moved correspondingly) on the translated file must equal the result on the original once every position in the edited file is mapped back (b < I unchanged; b >= I+db -> line-dl, byte-db; a position inside the inserted text is itself a violation). Besides the complete files, editing states are translated: a partially typed top-level name on a line of its own in front of an item (the first item of the file included), with the lines inserted directly above it and the cursors on every byte of the typed name. distinct non-trivial = comparisons whose result holds >= 1 position at or after the insertion point.",
 		Assumptions: []string{"the cursor exactly at the insertion point is skipped (ambiguous side)", "error values are compared by dynamic type only (messages embed positions)"},
 		Floor:       map[string]int{"quick": 300, "thorough": 2000},
 		CaseBudget:  120,
